@@ -11,7 +11,7 @@ sys.setrecursionlimit(12000)
 
 sys.path.insert(0, os.path.dirname(os.path.dirname(os.path.abspath(__file__))))
 
-from pmv.report import Run, AnalysisError          # noqa: E402
+from pmv.report import Run, AnalysisError, FloorError          # noqa: E402
 from pmv.source import Repo, AnchorError, Unsupported  # noqa: E402
 
 
@@ -110,9 +110,18 @@ def run_rules(mod, run, repo):
         complete = False
         run.notes.append('the analysis stopped at a construct outside the interpreted fragment (%s); the violations '
                          'reported were established before that point, the remaining instances were not run' % e)
+    except FloorError as e:
+        # a floor that fails because calls raise everywhere: the violations that explain it are what is reported
+        if not run.split_known()[0]:
+            raise
+        complete = False
+        run.notes.append('%s; the violations reported explain the missing instances' % e)
     report_hazards(run, repo, _x.HAZARD_LOG)
-    if complete:
+    if complete and not run.split_known()[0]:
         check_placeholders(repo, _x.PLACEHOLDER_LOG)
+    elif _x.PLACEHOLDER_LOG and complete:
+        run.notes.append('a formatted text without abstract spelling was met (%s:%s); the violations reported do not '
+                         'depend on it' % _x.PLACEHOLDER_LOG[0])
     return complete
 
 
